@@ -11,6 +11,7 @@ AST:
          | ["PAR", [v...], [names]]           [v..] params ["a",..]
          | ["SV", ns, name, v]                ns setVariable ["name", v]
          | ["GV", k, ns, name]                trace [k, ns getVariable ["name","nil"]]
+         | ["N", k, name]                     trace [k, isNil "name"]  (same lookup as a read of the name)
          | ["call", block] | ["if", block] | ["foreach", n, block] | ["for", n, block]
          | ["while", wid, n, condreads, block] | ["count", n, block]
          | ["with", ns, block]
@@ -49,6 +50,8 @@ def p_stmt(s, tr):
         return '%s setVariable ["%s", %s]' % (s[1], s[2], num(s[3]))
     if k == "GV":
         return '%s pushBack [%d, %s getVariable ["%s", "nil"]]' % (tr, s[1], s[2], s[3])
+    if k == "N":
+        return '%s pushBack [%d, isNil "%s"]' % (tr, s[1], s[2])
     if k == "call":
         return "call " + p_block(s[1], tr)
     if k == "if":
@@ -162,6 +165,8 @@ class ScopeModel:
         elif k == "GV":
             v = self.ns[s[2]].get(s[3].lower())
             T.append([float(s[1]), "nil" if v is None else float(v)])
+        elif k == "N":
+            T.append([float(s[1]), self.lookup(chain, cur_ns, s[2]) is None])
         elif k in ("call", "if"):
             self.scope(s[1], chain, cur_ns, T)
         elif k == "foreach":
@@ -229,9 +234,11 @@ def programs(draw, max_depth=4, max_stmts=5, allow_spawn=True, allow_with=True):
     def simple(in_spawn):
         if in_spawn:
             # spawned code runs interleaved with its starter: only locals are touched there
-            k = draw(st.sampled_from(["R", "R", "R", "A", "A", "P", "PA", "PV", "PAR"]))
+            k = draw(st.sampled_from(["R", "R", "R", "A", "A", "P", "PA", "PV", "PAR", "N"]))
         else:
-            k = draw(st.sampled_from(["R", "R", "R", "A", "A", "P", "PV", "PV", "PA", "PAR", "SV", "GV"]))
+            k = draw(st.sampled_from(["R", "R", "R", "A", "A", "P", "PV", "PV", "PA", "PAR", "SV", "GV", "N"]))
+        if k == "N":
+            return ["N", nk(), lname() if in_spawn else anyname()]
         if k == "R":
             return ["R", nk(), lname() if in_spawn else anyname()]
         if k == "A":
@@ -252,9 +259,11 @@ def programs(draw, max_depth=4, max_stmts=5, allow_spawn=True, allow_with=True):
             # fewer values than names: the unfilled names are still bound here (to nil), hiding same-named variables of enclosing scopes
             nvals = len(out) if draw(st.integers(0, 2)) else draw(st.integers(0, len(out)))
             return ["PAR", [nv() for _ in out][:nvals], out]
+        # a namespace can hold a name with a leading underscore (setVariable takes any string): it is not a local variable
+        nsname = lname() if draw(st.integers(0, 5)) == 0 else gname()
         if k == "SV":
-            return ["SV", draw(st.sampled_from(NAMESPACES)), gname(), nv()]
-        return ["GV", nk(), draw(st.sampled_from(NAMESPACES)), gname()]
+            return ["SV", draw(st.sampled_from(NAMESPACES)), nsname, nv()]
+        return ["GV", nk(), draw(st.sampled_from(NAMESPACES)), nsname]
 
     def stmt(depth, in_spawn, in_loopcode):
         kinds = ["s", "s", "s"]
@@ -333,6 +342,10 @@ def analyse(prog):
                             labs.add("with_nested_scope")
             elif k in ("SV", "GV"):
                 labs.add("ns_getset")
+                if s[-2 if k == "SV" else -1].startswith("_"):
+                    labs.add("ns_underscore_name")
+            elif k == "N":
+                labs.add("isnil_name")
             elif k in ("call", "if"):
                 walk(s[1], depth + 1, live, under_with, scopes_below_with + (1 if under_with else 0), in_spawn)
             elif k in ("foreach", "for", "count"):
